@@ -31,6 +31,7 @@ fn base_cfg(time_based: bool) -> CbCfg {
         fallback_gated: false,
         classifier_first: false,
         preset_start: false,
+        latency_inside_call: false,
     }
 }
 
@@ -119,22 +120,31 @@ fn c09_configs(tier: Tier) -> Vec<c09::C09> {
         for permitted in [1usize, 2] {
             let mut cfg = base_cfg(time_based);
             cfg.permitted = permitted;
-            v.push(c09::C09 { cfg: cfg.clone(), callers: tier.pick(3, 4).max(permitted + 2), max_ticks: 2, max_drops: 1, prepared: true, straggler: false, nested: 0, grid: 10, max_force: 0 });
+            v.push(c09::C09 { cfg: cfg.clone(), callers: tier.pick(3, 4).max(permitted + 2), max_ticks: 2, max_drops: 1, prepared: true, straggler: false, nested: 0, grid: 10, max_force: 0, late_ticks: 0 });
             if time_based && permitted == 2 {
                 // a half-open period that lasts longer than the (short) time window
                 let mut short = cfg.clone();
                 short.window_ms = 10;
-                v.push(c09::C09 { cfg: short, callers: 3, max_ticks: 2, max_drops: 0, prepared: true, straggler: false, nested: 0, grid: 10, max_force: 0 });
+                v.push(c09::C09 { cfg: short, callers: 3, max_ticks: 2, max_drops: 0, prepared: true, straggler: false, nested: 0, grid: 10, max_force: 0, late_ticks: 0 });
             }
             if permitted == 2 {
                 // callers 0,1 are used by the prelude; 2,3,4 arrive in the second half-open period
-                v.push(c09::C09 { cfg: cfg.clone(), callers: 5, max_ticks: 0, max_drops: 1, prepared: true, straggler: true, nested: 0, grid: 10, max_force: 0 });
+                v.push(c09::C09 { cfg: cfg.clone(), callers: 5, max_ticks: 0, max_drops: 1, prepared: true, straggler: true, nested: 0, grid: 10, max_force: 0, late_ticks: 0 });
             }
             // configured from the fast_fail() preset, every setting overridden afterwards
             {
                 let mut f = cfg.clone();
                 f.preset_start = true;
-                v.push(c09::C09 { cfg: f, callers: permitted + 2, max_ticks: 2, max_drops: 0, prepared: true, straggler: false, nested: 0, grid: 10, max_force: 0 });
+                v.push(c09::C09 { cfg: f, callers: permitted + 2, max_ticks: 2, max_drops: 0, prepared: true, straggler: false, nested: 0, grid: 10, max_force: 0, late_ticks: 0 });
+            }
+            if permitted == 1 {
+                // a closed start: callers may have been handed their call futures while the breaker
+                // was still closed and poll them for the first time when it is half-open
+                let mut f = cfg.clone();
+                f.window_size = 1;
+                f.min_calls = Some(1);
+                f.wait_ms = 10;
+                v.push(c09::C09 { cfg: f, callers: 3, max_ticks: 1, max_drops: 0, prepared: false, straggler: false, nested: 0, grid: 10, max_force: 0, late_ticks: 1 });
             }
             if time_based && permitted == 1 {
                 // three permitted trials, a half-open period longer than the (10 ms) time window:
@@ -142,21 +152,21 @@ fn c09_configs(tier: Tier) -> Vec<c09::C09> {
                 let mut f = cfg.clone();
                 f.permitted = 3;
                 f.window_ms = 10;
-                v.push(c09::C09 { cfg: f, callers: 4, max_ticks: 2, max_drops: 0, prepared: true, straggler: false, nested: 0, grid: 10, max_force: 0 });
+                v.push(c09::C09 { cfg: f, callers: 4, max_ticks: 2, max_drops: 0, prepared: true, straggler: false, nested: 0, grid: 10, max_force: 0, late_ticks: 0 });
             }
             // the breaker converted with with_fallback(..): callers beyond the limit are answered by
             // the fallback and must not reach the inner service either
             {
                 let mut f = cfg.clone();
                 f.fallback = true;
-                v.push(c09::C09 { cfg: f, callers: permitted + 2, max_ticks: 2, max_drops: 1, prepared: true, straggler: false, nested: 0, grid: 10, max_force: 0 });
+                v.push(c09::C09 { cfg: f, callers: permitted + 2, max_ticks: 2, max_drops: 1, prepared: true, straggler: false, nested: 0, grid: 10, max_force: 0, late_ticks: 0 });
             }
             // the breaker is forced open again while trial calls of a half-open period are still
             // running; the wait is one grid step
             {
                 let mut f = cfg.clone();
                 f.wait_ms = 10;
-                v.push(c09::C09 { cfg: f, callers: permitted + 2, max_ticks: 2, max_drops: 0, prepared: true, straggler: false, nested: 0, grid: 10, max_force: 1 });
+                v.push(c09::C09 { cfg: f, callers: permitted + 2, max_ticks: 2, max_drops: 0, prepared: true, straggler: false, nested: 0, grid: 10, max_force: 1, late_ticks: 0 });
             }
             // a custom failure classifier (a type-changing builder call that copies every other
             // setting by hand), installed after and before the other settings
@@ -164,23 +174,23 @@ fn c09_configs(tier: Tier) -> Vec<c09::C09> {
                 let mut cc = cfg.clone();
                 cc.custom_classifier = true;
                 cc.classifier_first = classifier_first;
-                v.push(c09::C09 { cfg: cc, callers: permitted + 2, max_ticks: 1, max_drops: 0, prepared: true, straggler: false, nested: 0, grid: 10, max_force: 0 });
+                v.push(c09::C09 { cfg: cc, callers: permitted + 2, max_ticks: 1, max_drops: 0, prepared: true, straggler: false, nested: 0, grid: 10, max_force: 0, late_ticks: 0 });
             }
             if permitted == 2 {
                 // everything in the seconds range: wait 3.03 s, time window 10.1 s
                 let mut sec = cfg.clone();
                 sec.wait_ms = 3030;
                 sec.window_ms = 10_100;
-                v.push(c09::C09 { cfg: sec, callers: 4, max_ticks: 2, max_drops: 0, prepared: true, straggler: false, nested: 0, grid: 1010, max_force: 0 });
+                v.push(c09::C09 { cfg: sec, callers: 4, max_ticks: 2, max_drops: 0, prepared: true, straggler: false, nested: 0, grid: 1010, max_force: 0, late_ticks: 0 });
             }
             // emulated lock contention: a caller is polled from inside another caller's critical
             // section (admission, outcome recording), as a second thread reaching the lock would be
-            v.push(c09::C09 { cfg: cfg.clone(), callers: permitted + 2, max_ticks: 1, max_drops: 0, prepared: true, straggler: false, nested: tier.pick(1, 2), grid: 10, max_force: 0 });
+            v.push(c09::C09 { cfg: cfg.clone(), callers: permitted + 2, max_ticks: 1, max_drops: 0, prepared: true, straggler: false, nested: tier.pick(1, 2), grid: 10, max_force: 0, late_ticks: 0 });
             if tier == Tier::Thorough {
                 let mut cfg2 = cfg.clone();
                 cfg2.window_size = 1;
                 cfg2.min_calls = Some(1);
-                v.push(c09::C09 { cfg: cfg2, callers: permitted + 2, max_ticks: 4, max_drops: 1, prepared: false, straggler: false, nested: 0, grid: 10, max_force: 0 });
+                v.push(c09::C09 { cfg: cfg2, callers: permitted + 2, max_ticks: 4, max_drops: 1, prepared: false, straggler: false, nested: 0, grid: 10, max_force: 0, late_ticks: 0 });
             }
         }
     }
